@@ -537,6 +537,31 @@ def unit_bycell2d(ctx):
     else:
         ctx.note("Mesh(cell=):refused")
 
+def unit_tolerance(ctx):
+    """regions built with a non-default comparison tolerance (tolerance_factor 1e-9, 1e-6, 1e-3): the same lattice
+    oracles; the ambiguity bands and the must-reject distance are taken from the region's own tolerance"""
+    tf = ctx.choose("tolerance_factor", [1e-6, 1e-9, 1e-3])
+    ndim = ctx.choose("ndim", [1, 2])
+    a0 = ctx.choose("axis0", [RAXES[1], RAXES[2], RAXES[5], RAXES[6]])
+    a1 = ctx.choose("axis1", [RAXES[0], RAXES[3], RAXES[4]]) if ndim == 2 else None
+    scale = ctx.choose("scale", [1.0, 1e-9])
+    axes = [a0] + ([a1] if a1 else [])
+    lo, hi, n = [], [], []
+    for (o, w, c, rs) in axes:
+        a, b = _axis(o, w, c, rs * scale)
+        lo.append(a)
+        hi.append(b)
+        n.append(c)
+    dims = C.DIMSETS[ndim][0]
+    ctx.step(1, f"Mesh(tolerance_factor={tf})")
+    mesh = df.Mesh(region=df.Region(p1=lo, p2=hi, dims=dims, tolerance_factor=tf), n=n)
+    ctx.check()
+    if mesh.region.tolerance_factor != tf:
+        ctx.fail("Region/tolerance-factor-not-kept", f"{mesh.region.tolerance_factor!r} for {tf!r}")
+        return
+    check_mesh(ctx, mesh, (np.array(lo), np.array(hi)), tuple(n), dims, ctx.key())
+
+
 # --------------------------------------------------------------------------------------------------------------------
 def unit_aliasing(ctx):
     """What the caller does with ITS OWN arrays afterwards must not reach the mesh: the corner / count arrays handed to
@@ -691,6 +716,7 @@ def units(tier):
         {"name": "lattice4d", "fn": unit_lattice4d, "bound": None},
         {"name": "bycell1d", "fn": unit_bycell1d, "bound": None},
         {"name": "bycell2d", "fn": unit_bycell2d, "bound": None},
+        {"name": "tolerance", "fn": unit_tolerance, "bound": None},
         {"name": "history", "fn": unit_history, "bound": None},
         {"name": "aliasing", "fn": unit_aliasing, "bound": None},
     ]
